@@ -231,4 +231,20 @@ Definition nontrivial (k : case) : bool :=
       negb (inline c) && (1 <=? length (c_src c)) && (4 <=? nlines)
   end.
 
-Definition verdict := verdict3 agree ok nontrivial.
+(* ---- one bridge, or two bridges alive at the same time ----------------------- *)
+
+(* The property (and the model) speak about one bridge.  Two bridges of the same function
+   alive at once (zip(to_sync_iter(a), to_sync_iter(b)), two consumer tasks on one loop)
+   must not disturb each other: the pair is the product of two independent model runs, and
+   each bridge is judged separately by agree / ok on its own observation (the run-level
+   result code -- deadlock, step bound -- is shared by both components). *)
+Inductive pcase := One (k : case) | Two (a b : case).
+
+Definition agree_p (p : pcase) : bool :=
+  match p with One k => agree k | Two a b => agree a && agree b end.
+Definition ok_p (p : pcase) : bool :=
+  match p with One k => ok k | Two a b => ok a && ok b end.
+Definition nontrivial_p (p : pcase) : bool :=
+  match p with One k => nontrivial k | Two a b => nontrivial a && nontrivial b end.
+
+Definition verdict := verdict3 agree_p ok_p nontrivial_p.
